@@ -102,9 +102,9 @@ def dispatchRanges : List String → Option (Obs × Option Obs)
     let (qi, qv) := (ints qi, ints qv)
     let bl : Blocks := h.foldl (fun (bl : Blocks) (s, e, st) => bl.appendUnique s e st) ([] : Blocks)
     let m := obsBlocks bl qi qv ++ [("str", hex bl.str),
-      ("reparse", showExcept (fun fs => summarize fs.frames) (FrameSet.parse bl.str))]
+      ("reparse", showExcept (fun fs => summarize fs.frames) (FrameSet.parse bl.str)), ("alias", "1")]
     let L := Spec.appendHist [] h
-    let sp := obsList L qi qv ++ (if L.isEmpty then [] else [("reparse", summarize L)])
+    let sp := obsList L qi qv ++ (if L.isEmpty then [] else [("reparse", summarize L)]) ++ [("alias", "1")]
     some (m, some sp)
   -- NewFrameSet(text) with the AST the text was rendered from (or "-")
   | ["fs.parse", txt, ast, qi, qv] =>
